@@ -3,17 +3,17 @@
 // Contracts for peer.go and notification_error.go (properties C01 C07 C11 C12 C13).
 package corebgp
 
-//@ func other returns (r)
+//@ func other (i) returns (r)
 //@   ensures [swap] (i == 0 ==> r == 1) && (i != 0 ==> r == 0)
 
-//@ func notificationError.dampPeer returns (r)
+//@ func notificationError.dampPeer (n) returns (r)
 //@   requires n.notification != nil
 //@   ensures [all_but_cease] r == (n.notification.Code != 6)
 
 // startupDelay after a protocol error: 60 s at first, doubling up to 300 s,
 // back to 60 s once 300 s have passed without one (time.Since is arbitrary >= 0:
 // that is the quantifier over elapsed time).
-//@ func peer.updateStartupDelay
+//@ func peer.updateStartupDelay (p)
 //@   requires [timer] p.startupDelayTimer != nil
 //@   requires [range] p.startupDelay == 0 || (60000000000 <= p.startupDelay && p.startupDelay <= 300000000000)
 //@   ghostvar elapsed int = 0
@@ -27,24 +27,24 @@ package corebgp
 
 // ---- FSM life cycle as seen by the peer manager ----
 
-//@ func newFSM returns (f)
+//@ func newFSM (peer, index, conn) returns (f)
 //@   ensures [fresh] f != nil && fresh(f) && f.peer == peer && f.index == index && f.conn == conn && f.closeCh != nil && f.doneCh != nil && f.idleHoldTimer != nil && f.remoteID == 0
 //@   ensures [not_started] !fsmRunning(f) && !chanClosed(f.closeCh) && !chanClosed(f.doneCh) && fresh(f.closeCh) && !onceDone(f.closeOnce)
 
-//@ func fsm.start
+//@ func fsm.start (f)
 //@   requires [once] !fsmRunning(f)
 //@   at call run#0 set fsmRunning(f) = true
 //@   modifies fsmRunning(f)
 //@   ensures [running] fsmRunning(f)
 
 // stop: request termination and wait for the goroutine (incl. its OnClose).
-//@ func fsm.stop
+//@ func fsm.stop (f)
 //@   requires f.closeCh != nil && f.doneCh != nil && (chanClosed(f.closeCh) == onceDone(f.closeOnce))
 //@   modifies fsmRunning(f), chanClosed(f.closeCh), onceDone(f.closeOnce)
 //@   ensures [joined] !fsmRunning(f)
 //@   ensures [close_requested] chanClosed(f.closeCh) && onceDone(f.closeOnce)
 
-//@ func peer.disableFSM
+//@ func peer.disableFSM (p, i)
 //@   requires [inv] peerInv(p) && (i == 0 || i == 1)
 //@   modifies p.fsms[i], p.fsmState[i], fsmRunning(p.fsms[i]), chanClosed(p.fsms[i].closeCh), onceDone(p.fsms[i].closeOnce)
 //@   ensures [inv] peerInv(p)
@@ -53,7 +53,7 @@ package corebgp
 //@   ensures [other_untouched] p.fsms[1-i] == old(p.fsms[1-i]) && p.fsmState[1-i] == old(p.fsmState[1-i]) && (p.fsms[1-i] != nil ==> fsmRunning(p.fsms[1-i]) && !chanClosed(p.fsms[1-i].closeCh))
 //@   ensures [done_untouched] chanClosed(p.doneCh) == old(chanClosed(p.doneCh))
 
-//@ func peer.sendTransitionToFSM
+//@ func peer.sendTransitionToFSM (p, i, t)
 //@   requires [inv] peerInv(p) && (i == 0 || i == 1) && p.fsms[i] != nil && t.to <= 6 && t.from <= 6 && (t.to == 5 ==> t.from == 4)
 //@   requires [one_established] t.to == 6 ==> p.fsmState[1-i] != 6
 //@   ghostvar sent bool = false
@@ -62,7 +62,7 @@ package corebgp
 //@   ensures [inv] peerInv(p)
 //@   ensures [state_follows_echo] p.fsmState[i] == (sent ? t.to : old(p.fsmState[i]))
 
-//@ func peer.enableFSM
+//@ func peer.enableFSM (p, i, conn)
 //@   requires [inv] peerInvCore(p) && (i == 0 || i == 1)
 //@   modifies p.fsms[i], p.fsmState[i]
 //@   ensures [inv] peerInvCore(p)
@@ -72,7 +72,7 @@ package corebgp
 //@   ensures [other_untouched] p.fsms[1-i] == old(p.fsms[1-i]) && p.fsmState[1-i] == old(p.fsmState[1-i])
 
 // ---- protocol errors damp the peer (C12) ----
-//@ func peer.handleError
+//@ func peer.handleError (p, i, err)
 //@   requires [inv] peerInv(p) && (i == 0 || i == 1)
 //@   requires [well_formed_error] hasType(err, *notificationError) ==> firstOf(err, *notificationError) != nil && firstOf(err, *notificationError).notification != nil
 //@   let damping = hasType(err, *notificationError) && firstOf(err, *notificationError).notification.Code != 6
@@ -84,7 +84,7 @@ package corebgp
 //@   ensures [no_damp_otherwise] !damping ==> p.fsms[0] == old(p.fsms[0]) && p.fsms[1] == old(p.fsms[1]) && p.fsmState[0] == old(p.fsmState[0]) && p.fsmState[1] == old(p.fsmState[1]) && p.inHoldDown == old(p.inHoldDown) && p.startupDelay == old(p.startupDelay) && p.startupDelayTimer == old(p.startupDelayTimer) && timerOn(p.startupDelayTimer) == old(timerOn(p.startupDelayTimer))
 
 // ---- state transitions: one Established session (C01), collision (C07), resume dialling (C11) ----
-//@ func peer.handleStateTransition
+//@ func peer.handleStateTransition (p, i, t)
 //@   requires [inv] peerInv(p) && (i == 0 || i == 1) && p.fsms[i] != nil && t.to <= 6 && t.from <= 6 && (t.to == 5 ==> t.from == 4) && !p.inHoldDown
 //@   let collision = t.to == 5 && old(p.fsmState[1-i]) == 5
 //@   let localDominant = p.id > old(p.fsms[i].remoteID) || (p.id == old(p.fsms[i].remoteID) && p.config.LocalAS > p.config.RemoteAS)
@@ -110,7 +110,7 @@ package corebgp
 // ---- the manager loop ----
 // Rely (composition step, DESIGN section 5): a transition or error received from
 // slot i was sent by the FSM registered in that slot, so the slot is not empty.
-//@ func peer.run
+//@ func peer.run (p)
 //@   requires [inv] peerInv(p) && !chanClosed(p.doneCh)
 //@   loop#0 invariant [inv] peerInv(p) && !chanClosed(p.doneCh)
 //@   at select#0 case 4 assume p.fsms[1] != nil
@@ -124,20 +124,20 @@ package corebgp
 //@   ensures [timer_stopped] !timerOn(p.startupDelayTimer)
 //@   ensures [done_signalled] chanClosed(p.doneCh)
 
-//@ func peer.start
+//@ func peer.start (p)
 //@   requires [inv] peerInv(p) && !p.inHoldDown && !peerRunning(p)
 //@   at call run#0 assert [manager_starts_with_invariant] peerInv(p)
 //@   at call run#0 set peerRunning(p) = true
 //@   modifies p.fsms[0], p.fsmState[0], peerRunning(p)
 //@   ensures [running] peerRunning(p)
 
-//@ func peer.stop
+//@ func peer.stop (p)
 //@   requires p.closeCh != nil && p.doneCh != nil && (chanClosed(p.closeCh) == onceDone(p.closeOnce))
 //@   modifies peerRunning(p), chanClosed(p.closeCh), onceDone(p.closeOnce)
 //@   ensures [joined] !peerRunning(p)
 //@   ensures [close_requested] chanClosed(p.closeCh) && onceDone(p.closeOnce)
 
-//@ func peer.incomingConnection
+//@ func peer.incomingConnection (p, conn)
 //@   requires p.closeCh != nil && p.inConnCh != nil && conn != nil
 //@   ghostvar handed bool = false
 //@   at select#0 case 1 set handed = true
@@ -145,13 +145,13 @@ package corebgp
 //@   ensures [handed_or_closed] handed || connClosed(conn)
 //@   ensures [not_closed_when_handed] handed ==> connClosed(conn) == old(connClosed(conn))
 
-//@ func notificationError.Error returns (s)
+//@ func notificationError.Error (n) returns (s)
 //@   requires n.notification != nil
 
 // the FSM's own channels: selected by its immutable index (no access to p.fsms)
-//@ func peer.getFSMTransitionCh returns (c)
+//@ func peer.getFSMTransitionCh (p, f) returns (c)
 //@   requires f != nil && (f.index == 0 || f.index == 1)
 //@   ensures c == p.transitionCh[f.index]
-//@ func peer.getFSMErrorCh returns (c)
+//@ func peer.getFSMErrorCh (p, f) returns (c)
 //@   requires f != nil && (f.index == 0 || f.index == 1)
 //@   ensures c == p.errorCh[f.index]
